@@ -495,6 +495,7 @@ func (r *patchRunner) Apply(filename string, f *ast.File) (fout *ast.File, comme
 
 			snap = snap.Diff(fout, cl)
 			fout.Comments = cleanupFilePos(r.fset.File(fout.Pos()), cl, fout.Comments)
+			engine.DetachEmptyComments(fout)
 		}
 	}
 
